@@ -64,6 +64,7 @@ type iterH struct {
 	opsAtOpen    int
 	removedAt    int
 	versAtOpen   int
+	seekBuf      []byte // one buffer reused for every Seek key of this iterator (callers may refill their buffer at once)
 }
 
 // Env is the executor state.
@@ -1103,13 +1104,25 @@ func (e *Env) walk(h *iterH, moves []Move) error {
 			got, want = it.Last(), cur.Last()
 		case "seek":
 			k := e.key(mv.K)
-			ka, kIntact := guarded(k)
+			// the key goes into the iterator's one reusable buffer (followed by guard bytes): the
+			// next Seek refills the same memory with another key
+			const tail = 24
+			if cap(h.seekBuf) < len(k)+tail {
+				h.seekBuf = make([]byte, 0, 2*(len(k)+tail))
+			}
+			buf := h.seekBuf[:len(k)+tail]
+			copy(buf, k)
+			for j := len(k); j < len(buf); j++ {
+				buf[j] = 0xC3 ^ byte(j)
+			}
+			ref := append([]byte{}, buf...)
+			ka := buf[:len(k)]
 			got, want = it.Seek(ka), cur.Seek(k)
-			if !kIntact() {
+			if !bytes.Equal(buf, ref) {
 				return e.fail("iterator Seek(%q) modified its key argument or the caller's bytes behind it", k)
 			}
 			if e.C.Poison {
-				scribble(ka)
+				scribble(buf)
 			}
 			e.St.Seeks++
 		case "next":
